@@ -146,6 +146,112 @@ theorem level_b_leaves (L : HiBitSet.Layers) (h : HiBitSet.WF L) (pick : List Na
   rw [hk] at this
   exact this
 
+/-! ### Early-exit consumers (`find_first`, `find_last`) need the leaves IN ORDER, not just as a partition -/
+
+/-- Ordered splitter contract: the two halves of a split are a front part and a back part. -/
+def SplitOrd {P : Type} (S : Splitter P) (Inv : P → Prop) : Prop :=
+  ∀ p, Inv p →
+    match S.split p with
+    | (a, none) => S.keys a = S.keys p ∧ Inv a
+    | (a, some b) => S.keys a ++ S.keys b = S.keys p ∧ Inv a ∧ Inv b
+
+/-- Under the ordered contract the leaves of ANY split tree, read left to right, are the producer's key list. -/
+theorem leaves_in_order {P : Type} (S : Splitter P) (Inv : P → Prop) (hS : SplitOrd S Inv) :
+    ∀ (t : SplitTree) (p : P), Inv p →
+      ((leaves S t p).map S.keys).flatten = S.keys p ∧ ∀ q ∈ leaves S t p, Inv q := by
+  intro t
+  induction t with
+  | leaf => intro p hp; simp [leaves, hp]
+  | node l r ihl ihr =>
+    intro p hp
+    have h := hS p hp
+    simp only [leaves]
+    cases hsp : S.split p with
+    | mk a ob =>
+      rw [hsp] at h
+      cases ob with
+      | none =>
+        simp only at h ⊢
+        simp [h.1, h.2]
+      | some b =>
+        simp only at h ⊢
+        obtain ⟨he, ga, gb⟩ := h
+        obtain ⟨la, ia⟩ := ihl a ga
+        obtain ⟨lb, ib⟩ := ihr b gb
+        refine ⟨?_, ?_⟩
+        · rw [List.map_append, List.flatten_append, la, lb, he]
+        · intro q hq
+          rcases List.mem_append.mp hq with h1 | h1
+          · exact ia q h1
+          · exact ib q h1
+
+/-- The model of `BitProducer::split` meets the ORDERED contract (its halves are a front and a back part of `items`). -/
+theorem level_b_splitOrd (L : HiBitSet.Layers) (hL : HiBitSet.SortedL L) (pick : List Nat → Nat) :
+    SplitOrd (hiSplitter L pick) HiBitSet.Good := by
+  intro p hp
+  have h := HiBitSet.split_ok hL pick 3 p hp
+  simp only [hiSplitter]
+  cases hsp : HiBitSet.split L pick 3 p with
+  | mk a ob =>
+    rw [hsp] at h
+    cases ob with
+    | none => exact h
+    | some b => exact h
+
+/-- `find_first` of rayon over the leaves of a split tree: the match of the left-most leaf that has one
+    (whatever the other leaves do, and whenever they stop). -/
+def parFindFirst (pred : Nat → Bool) (ls : List (List Nat)) : Option Nat := ls.findSome? (fun l => l.find? pred)
+
+/-- `find_last`: the last match of the right-most leaf that has one. -/
+def parFindLast (pred : Nat → Bool) (ls : List (List Nat)) : Option Nat :=
+  ls.reverse.findSome? (fun l => l.reverse.find? pred)
+
+theorem findSome_find_flatten (pred : Nat → Bool) (ls : List (List Nat)) :
+    ls.findSome? (fun l => l.find? pred) = ls.flatten.find? pred := by
+  induction ls with
+  | nil => rfl
+  | cons l ls ih =>
+    simp only [List.findSome?_cons, List.flatten_cons, List.find?_append]
+    cases l.find? pred with
+    | none => simpa using ih
+    | some x => simp
+
+theorem flatten_reverse_map (ls : List (List Nat)) :
+    (ls.reverse.map List.reverse).flatten = ls.flatten.reverse := by
+  induction ls with
+  | nil => rfl
+  | cons l ls ih =>
+    simp only [List.reverse_cons, List.map_append, List.map_cons, List.map_nil, List.flatten_append,
+      List.flatten_cons, List.flatten_nil, List.append_nil, List.reverse_append, ih]
+
+theorem findLast_flatten (pred : Nat → Bool) (ls : List (List Nat)) :
+    ls.reverse.findSome? (fun l => l.reverse.find? pred) = ls.flatten.reverse.find? pred := by
+  rw [← flatten_reverse_map, ← findSome_find_flatten, List.findSome?_map]
+  rfl
+
+/-- **C07, early exit.** For every split tree and every `average_ones`, `find_first` over the parallel join's leaves
+    is the sequential join's first match, and `find_last` its last match — the early-exit consumers see the
+    sequential order although the leaves run in any order. -/
+theorem level_b_find_first_last (L : HiBitSet.Layers) (h : HiBitSet.WF L) (pick : List Nat → Nat)
+    (m : Mask) (hb : m.Bdd MAXIDX) (hrep : ∀ i, i < MAXIDX → L.contains i = m.mem i) (t : SplitTree)
+    (pred : Nat → Bool) :
+    parFindFirst pred ((leaves (hiSplitter L pick) t (HiBitSet.fresh L)).map (hiSplitter L pick).keys)
+      = (m.toList MAXIDX).find? pred ∧
+    parFindLast pred ((leaves (hiSplitter L pick) t (HiBitSet.fresh L)).map (hiSplitter L pick).keys)
+      = (m.toList MAXIDX).reverse.find? pred := by
+  have hg : HiBitSet.Good (HiBitSet.fresh L) := HiBitSet.good_fresh h.w3.1
+  have ho := (leaves_in_order _ _ (level_b_splitOrd L h.sortedL pick) t _ hg).1
+  have hk : (hiSplitter L pick).keys (HiBitSet.fresh L) = m.toList MAXIDX := by
+    simp only [hiSplitter]
+    rw [HiBitSet.items_fresh_eq h, Mask.toList_eq_filter MAXIDX m (fun _ => hb)]
+    apply List.filter_congr
+    intro i hi
+    exact hrep i (List.mem_range.mp hi)
+  rw [hk] at ho
+  constructor
+  · unfold parFindFirst; rw [findSome_find_flatten, ho]
+  · unfold parFindLast; rw [findLast_flatten, ho]
+
 /-- **C07 (a) at Level B, end to end.** For every world represented at Level B, every member list,
     every split tree and every `average_ones`: the parallel join driven by the model of hibitset's
     `BitProducer` over the layered tuple mask delivers a permutation of the sequential join's items. -/
